@@ -78,7 +78,8 @@ def case_s(draw, kinds=("tcp-lines", "unix-lines", "server", "tcp-lines", "unix-
     # the timeout argument: an abandoned read consumes nothing either
     outer = draw(st.one_of(st.just([]), st.lists(st.booleans(), min_size=len(reads), max_size=len(reads))))
     return {"kind": kind, "msgs": msgs, "cuts": cuts, "gaps": gaps, "reads": reads, "eof_gap": eof_gap, "wblock": wblock, "partial": partial, "outer": outer,
-            "idle_peer": draw(st.sampled_from([0, 0, 0, 1, 2])) if kind not in ("server", "server2") else 0}
+            "idle_peer": draw(st.sampled_from([0, 0, 0, 1, 2])) if kind not in ("server", "server2") else 0,
+            "stuck_peer": kind == "server2" and draw(st.booleans())}
 
 
 def f_reply(req: bytes, idx: int) -> bytes | None:
@@ -407,7 +408,13 @@ def _check_server_multi(case: dict[str, Any]) -> list[tuple[str, str]]:
             seen.append(request_pdu)
             return reply(request_pdu), 0.0
 
-    writers = [MemWriter(), MemWriter()]
+    writers: list[Any] = [MemWriter(), MemWriter()]
+    stuck = bool(case.get("stuck_peer"))
+    if stuck:
+        # the tester on connection 0 sends its requests and does not read the replies for a long time (its connection is above the
+        # high-water mark: drain() does not return); the tester on connection 1 is served all the same
+        writers[0] = BPWriter()
+        writers[0].blocked = True
     state: dict[str, Any] = {}
 
     async def run() -> None:
@@ -426,21 +433,23 @@ def _check_server_multi(case: dict[str, Any]) -> list[tuple[str, str]]:
         for r in readers:
             r.feed_eof()
         try:
-            await asyncio.wait_for(asyncio.gather(*tasks, return_exceptions=True), 5)
+            await asyncio.wait_for(asyncio.gather(*(tasks[1:] if stuck else tasks), return_exceptions=True), 5)
         except TimeoutError:
             state["hung"] = True
+        for t in tasks:
+            t.cancel()
 
     status, val, _ = run_virtual(run, max_virtual=1e6)
     if status != "ok":
         return [("C19/server/harness", f"{status} {val!r}")]
     out: list[tuple[str, str]] = []
-    for c in (0, 1):
+    for c in ((1,) if stuck else (0, 1)):
         own = [m for i, m in enumerate(msgs) if i % 2 == c]
         exp = b"".join(hexlify(r) + b"\n" for r in (reply(m) for m in own) if r is not None)
         if state["wire"][c] != exp:
             out.append(("C19/server/two-connections/reply-on-wrong-connection", f"connection {c} sent {[m.hex()[:12] for m in own][:6]} and received {state['wire'][c][:80]!r}, expected {exp[:80]!r}"))
             break
-    if sorted(seen) != sorted(msgs):
+    if not stuck and sorted(seen) != sorted(msgs):
         out.append(("C19/server/two-connections/request-sequence", f"server saw {len(seen)} of {len(msgs)} requests"))
     return out
 
